@@ -203,7 +203,7 @@ CLAIMED["C03"] = dict(
         "a whole COM_QUERY exchange is stated on the code (code_query_exchange), one iteration writes the handler's output, one ERR exactly on failure and the sequence "
         "reset (command_step_is_code), and for EVERY packet list the generated loop ends only by COM_QUIT, ignores what follows it, composes over concatenation, resets "
         "the sequence after every command and never retracts what was written (code_loop_ends_only_by_quit, code_loop_ignores_after_quit, code_loop_composes, "
-        "code_every_command_resets_sequence, code_nothing_written_is_retracted, code_capabilities_constant - the last two assume the same of the untranslated handle_change_user).",
+        "code_every_command_resets_sequence, code_nothing_written_is_retracted, code_capabilities_constant - the last two assume the same of the untranslated handler; with the generated handle_change_user plugged in the assumption is about _change_user alone: code_conversations_with_change_user).",
    note=TB + "Modelled, not verified: asyncio (A1-A4 of DESIGN.md); the 32 KiB threshold flush is abstracted (responses smaller than the buffer); sequence numbers are checked by the oracle, not in Lean.",
    design="DESIGN.md section 4, C03")
 
@@ -241,7 +241,10 @@ CLAIMED["C01"] = dict(
         "produces a packet or a session call (closed is absorbing); a denied or raising COM_CHANGE_USER is answered by one ERR, closes the session exactly once "
         "and serves nothing afterwards. Tie: random configurations (native, two clear-password plugins, no-login, trust, 2-round custom) / users / responses on "
         "the handshake route with follow-up commands, then COM_CHANGE_USER (right / wrong / unknown / raising) with follow-ups, compared with Mimic.Auth and "
-        "Mimic.Conn; oracle-only: handshake responses truncated at every offset, wrong sequence ids in the connection phase; reference predicate (hashlib).",
+        "Mimic.Conn; oracle-only: handshake responses truncated at every offset, wrong sequence ids in the connection phase; reference predicate (hashlib). "
+        "CODE LEVEL: Connection.handle_change_user is read from the source on every run (harness/pytrans3.py) and plugged into the generated command loop: in "
+        "every conversation a COM_CHANGE_USER whose _change_user does not return ends the command phase there, with the exchange's own ERR or exactly one ERR, "
+        "and nothing sent after it is looked at (code_nothing_after_failed_change_user, code_change_user_exchange); _change_user itself is a parameter.",
    note=TB + "Modelled, not verified: parse_handshake_response (its outcome - parsed / raised - is observed, see C07), asyncio.",
    design="DESIGN.md section 4, C01")
 
